@@ -1089,6 +1089,17 @@ def core_item(text: str, rng, n_env: int = 3, parser: str = "cpp") -> Optional[d
             "cpy": pf.ast_json(want), "envs": [pygen.core_env(rng) for _ in range(n_env)], "code": code}
 
 
+EMBEDDED_PROBES = [
+    ("constraint", "a >= z <= y"), ("constraint", "a == b in c"), ("constraint", "not a >= x"), ("constraint", "not not a >= x"),
+    ("constraint", "not a < b < c"), ("constraint", "a and b if c else d"), ("constraint", "a if b else c or d"),
+    ("constraint", "a if c else d >= 3"), ("constraint", "x < y if c else z"), ("constraint", "(a if c else d) >= 3"),
+    ("constraint", "q and (a == b in c) or r"), ("constraint", "f(a < b < c)"), ("constraint", "not a in b"),
+    ("constraint", "len(<a>) >= 1 <= 2"), ("constraint", "str(<a>) == 'x' if <b> else False"),
+    ("constraint", "f(lambda: 0)"), ("generator", "lambda: <a>"), ("repetition", "a[b,]"), ("constraint", "[*a, b]"),
+    ("generator", "f'{<a>} b'"), ("generator", "f'{{}}'"), ("constraint", "f'{a=}' == x"), ("generator", "a >= z <= y"),
+    ("generator", "not a >= x"), ("generator", "a and b if c else d"), ("repetition", "1_0"), ("generator", "x + 1_0"),
+]
+
 CORE_CORPUS = [
     "a if b else c", "a if b else c if p else s", "a or b or c", "a and b and c or p and not q", "not not a",
     "1 < 2 < 3", "3 > 2 > 1", "a < b <= c != 7", "a in t not in v", "n is None is not False", "a <> b",
@@ -1373,6 +1384,16 @@ def main(tier: str) -> int:
     rng = run.rng("embedded")
     n_emb = 330 if quick else 4000
     estatus: dict[str, int] = {}
+    # fixed probes first: one relative of every finding of the build round at the sites it was found at
+    for site, expr in EMBEDDED_PROBES:
+        for parser in ("cpp", "python"):
+            r = tv_embedded(site, *mark_selectors(expr), parser, 0)
+            st = site + ":" + r["status"] + (":" + r["exc"] if "exc" in r else "")
+            estatus["probe:" + st] = estatus.get("probe:" + st, 0) + 1
+            if r["status"] != "notpython":
+                run.case([site, expr, 0, parser], True, None)
+            for d in r.get("diffs", []):
+                fails.add(site, d, {"kind": site, "text": expr, "parser": parser, "variant": 0, "spec": r.get("text")})
     t_emb = time.time()
     for i in range(n_emb):
         site = ("constraint", "generator", "repetition")[i % 3]
